@@ -34,6 +34,7 @@ class T:
         self.timed = False
         self.fire = False
         self.desc = None
+        self.deadline = None
         self.real = _rt.Thread(target=self.boot, daemon=True)
         self.real.start()
 
@@ -72,6 +73,7 @@ class Sched:
         self.ntrans = 0
         self.key_files = key_files
         self.blocked = []
+        self.now = 0.0        # virtual clock: a timed wait that fires moves it to its deadline
 
     def alts(self, me):
         a = []
@@ -103,7 +105,8 @@ class Sched:
             k.append((t.state, t.desc, t.timed, tuple(st)))
         sem = tuple(sorted((n, s.value) for n, s in self.sems.items()))
         objs = tuple((o.name, o.oid, o.count, o.last) for o in self.objs)
-        return (tuple(k), sem, objs, tuple(sorted((a, str(b)) for a, b in self.out.items())))
+        return (tuple(k), sem, objs, tuple(sorted((a, str(b)) for a, b in self.out.items())),
+                round(self.now, 6))
 
     def pick(self, me):
         a = self.alts(me)
@@ -143,6 +146,8 @@ class Sched:
         t, how = ch
         if how == "timeout":
             t.fire = True
+            if t.deadline is not None:
+                self.now = max(self.now, t.deadline)
         t.state = "ready"
         if t is me:
             return
@@ -152,8 +157,9 @@ class Sched:
             me.baton.acquire()
             self.cur = me
 
-    def point(self, desc, pred=None, timed=False):
+    def point(self, desc, pred=None, timed=False, timeout=None):
         me = self.cur
+        me.deadline = (self.now + max(0.0, timeout)) if (timed and timeout is not None) else None
         if self.aborting:
             raise Abort()
         me.desc = desc
@@ -263,7 +269,8 @@ class SimSemLock:
                 self.last = S.cur.id
                 return True
             return False
-        r = S.point(("acq", self.name), lambda: k.value > 0, timed=timeout is not None)
+        r = S.point(("acq", self.name), lambda: k.value > 0, timed=timeout is not None,
+                    timeout=timeout)
         if r is TIMEOUT:
             S.out["fired:" + S.cur.name] = S.out.get("fired:" + S.cur.name, 0) + 1
             return False
@@ -336,6 +343,7 @@ def load_sync(repo):
     m.__dict__["__builtins__"] = b
     exec(_code[path], m.__dict__)
     m.SemLock._make_name = staticmethod(lambda: f"/s{next(names)}")
+    m._time = lambda: S.now          # the clock of wait_for is the explorer's virtual clock
     # the time source of wait_for is irrelevant here (timeouts are scheduler alternatives)
     return m
 
